@@ -634,6 +634,23 @@ def check_e1(ctx, prog, rep, control):
         rep.violation("E1", x, owner, "%s can return -1 (empty %s) and the value reaches the subscript %s" % (owner.short, pretty(cont), sink[0]),
                       "via %s; out-of-bounds read when the container is empty" % sink[1],
                       key="%s|returns size-1 of an empty container into a subscript" % owner.short)
+    # (c) functions that answer "none" with a literal -1: the sentinel must be tested before it is used as an index
+    lit_sources = {}
+    for f in prog.all_funcs(with_lambdas=False):
+        if f.body is None or f.key in sources:
+            continue
+        for x in walk(f.body):
+            if x.get("kind") == "ReturnStmt" and children(x):
+                rc = canon(children(x)[0])
+                if rc in (("lit", "-1"), ("un", "-", ("lit", "1")), ("lit", -1)) or (rc[0] == "un" and rc[1] == "-" and rc[-1][0] == "lit" and str(rc[-1][1]) == "1"):
+                    lit_sources.setdefault(f.key, (f, x, ("lit", "none")))
+    n_lit = len(lit_sources)
+    for (owner, x, cont), sink in minus_one_taint(ctx, prog, lit_sources):
+        rep.violation("E1", x, owner, "%s answers -1 for 'none' and the value reaches the subscript %s untested" % (owner.short, sink[0]),
+                      "via %s; out-of-bounds read on the path where nothing is found" % sink[1],
+                      key="%s|-1 sentinel reaches a subscript" % owner.short)
+    if not control:
+        rep.holds("E1", "src/**", None, "functions returning a literal -1 examined: the sentinel reaches no subscript untested", "%d" % n_lit)
     if not control and not any(i["rule"] == "E1" for i in rep.instances):
         rep.holds("E1", "src/**", None, "every size()-k expression is signed-and-checked or guarded", "%d expressions examined" % n)
     elif not control:
